@@ -2,6 +2,7 @@
    stands for the NIP-01 hash of the rumor's own fields, an injective idealisation; the id is recomputed by the receiver
    since fix 7727e46).  Statements only. *)
 From MDK Require Import Base.Prelude Base.AMap Mdk.Engine Mdk.EngineSpec Mdk.EngineProofs Mdk.EngineProofs3.
+From MDK Require Import Mdk.EngineProofs4 Mdk.EngineProofs5.
 
 (* an event from another member can create or replace at most the record keyed by its own (recomputed) message id: every
    other stored message, of any author, is untouched.  (A rollback re-labels later-epoch messages as invalidated, hence the
@@ -39,3 +40,11 @@ Print Assumptions C04_preset_id_only_hits_sender.
 Theorem C04_replay_no_second_copy : forall c e, NoDup (map fst (msgs c)) -> NoDup (map fst (msgs (fst (deliver c e)))).
 Proof. exact no_second_copy. Qed.
 Print Assumptions C04_replay_no_second_copy.
+
+(* ---- an application message whose inner rumor names an author other than its MLS-authenticated sender (e_bad = 7:
+   verify_rumor_author fails) is never stored, in any client state, whatever the receiver's epoch and whoever now holds
+   the sender's leaf; the set of stored message ids is unchanged by it *)
+Theorem C04_forged_author_never_stored : forall c e, e_kind e = 1 -> e_bad e = 7 -> e_author e <> me c ->
+  snd (deliver c e) <> RApp /\ map fst (msgs (fst (deliver c e))) = map fst (msgs c).
+Proof. exact forged_never_stored. Qed.
+Print Assumptions C04_forged_author_never_stored.
